@@ -81,7 +81,7 @@ func buildDriver(c *core.Ctx) (string, error) {
 
 func runBatch(p *core.Proc, out string, scs []scen, flushSusp bool) (*batchResp, error) {
 	var resp batchResp
-	req := map[string]any{"op": "batch", "out": out, "scen": scs, "flushSusp": flushSusp, "rounds": 600, "stuckAt": 8}
+	req := map[string]any{"op": "batch", "out": out, "scen": scs, "flushSusp": flushSusp, "rounds": 250, "stuckAt": 8}
 	if err := p.Call(req, &resp); err != nil {
 		return nil, err
 	}
@@ -304,6 +304,23 @@ type checker struct {
 	settle map[string]int
 	stats  map[string]int
 	failed []error
+	tried  map[string]int // confirmations per class of outcome
+}
+
+// mayConfirm limits the number of re-executions per class of outcome (a mutated transport
+// can make thousands of scenarios fail in the same way).
+func (k *checker) mayConfirm(class string) bool {
+	k.mu.Lock()
+	defer k.mu.Unlock()
+	if k.tried == nil {
+		k.tried = map[string]int{}
+	}
+	k.tried[class]++
+	if k.tried[class] > 2 || len(k.tried) > 40 {
+		k.stats["failures_not_reexecuted_same_class"]++
+		return false
+	}
+	return true
 }
 
 func (k *checker) fail(err error) {
@@ -462,7 +479,7 @@ func oneLine(s string, n int) string {
 
 // validateAll validates the segments in chunks (one JVM each, `par` at a time); rejected
 // scenarios are confirmed and the rest of their chunk is validated again without them.
-func (k *checker) validateAll(segs []segment, chunkEvents, par int) {
+func (k *checker) validateAll(segs []segment, chunkEvents, par, maxRounds int) {
 	var chunks [][]segment
 	var cur []segment
 	n := 0
@@ -485,7 +502,7 @@ func (k *checker) validateAll(segs []segment, chunkEvents, par int) {
 			defer wg.Done()
 			sem <- struct{}{}
 			defer func() { <-sem }()
-			for round := 0; len(ch) > 0 && round < 6; round++ {
+			for round := 0; len(ch) > 0 && round < maxRounds; round++ {
 				bad, _, events, err := validate(k.c, k.nt, ch)
 				if err != nil {
 					k.fail(err)
@@ -518,8 +535,10 @@ func (k *checker) validateAll(segs []segment, chunkEvents, par int) {
 				k.mu.Lock()
 				k.stats["traces_rejected"]++
 				k.mu.Unlock()
-				if err := k.confirm(ch[bad], "TLC rejected the recorded trace"); err != nil {
-					k.fail(err)
+				if k.mayConfirm("tlc/" + strings.Join(ch[bad].res.Susp, ",") + fmt.Sprint(ch[bad].sc.Restarts)) {
+					if err := k.confirm(ch[bad], "TLC rejected the recorded trace"); err != nil {
+						k.fail(err)
+					}
 				}
 				ch = ch[bad+1:]
 			}
@@ -732,20 +751,40 @@ func runC36(c *core.Ctx) error {
 	// order: traced first (budget), then summaries
 	sort.SliceStable(segs, func(i, j int) bool { return segs[i].res.Traced && !segs[j].res.Traced })
 	budget := c.Pick(75000, 1000000)
-	var use []segment
+	var use, hinted []segment
 	total, skipped := 0, 0
+	perHint := map[string]int{}
 	for _, s := range segs {
-		if s.res.Traced && len(s.res.Susp) == 0 && total+len(s.lines) > budget {
+		if s.res.Traced && len(s.res.Susp) > 0 {
+			// recorded because of a prefilter hint: a few of every kind go through TLC, in a
+			// chunk of their own (they are expected to be rejected one by one)
+			h := fmt.Sprint(s.res.Susp[0], s.sc.Restarts)
+			if perHint[h]++; perHint[h] > 3 {
+				skipped++
+				continue
+			}
+			hinted = append(hinted, s)
+			continue
+		}
+		if s.res.Traced && total+len(s.lines) > budget {
 			skipped++
 			continue
 		}
 		total += len(s.lines)
 		use = append(use, s)
 	}
-	c.Set("traces_recorded_but_over_event_budget", skipped)
-	c.Logf("validating %d events of %d scenario records with TLC", total, len(use))
+	c.Set("traces_recorded_but_not_validated", skipped)
+	c.Set("traces_with_prefilter_hint_validated", len(hinted))
+	c.Logf("validating %d events of %d scenario records (+%d hinted traces) with TLC", total, len(use), len(hinted))
 	rnd.Shuffle(len(use), func(i, j int) { use[i], use[j] = use[j], use[i] })
-	k.validateAll(use, c.Pick(10000, 40000), c.Pick(8, 10))
+	var vw sync.WaitGroup
+	vw.Add(1)
+	go func() {
+		defer vw.Done()
+		k.validateAll(hinted, 1<<30, 1, len(hinted)+1)
+	}()
+	k.validateAll(use, c.Pick(10000, 40000), c.Pick(8, 10), 6)
+	vw.Wait()
 	if len(k.failed) > 0 {
 		return k.failed[0]
 	}
@@ -875,7 +914,7 @@ func (k *checker) execute(all []scen, procs int) ([]segment, error) {
 				k.mu.Unlock()
 				// panics and settle-limit outcomes never reach TLC: handle them here
 				for i, r := range resp.Res {
-					if r.Panic != "" || r.Settle == "limit" {
+					if (r.Panic != "" || r.Settle == "limit") && k.mayConfirm("driver/"+panicClass(r.Panic)+r.Settle) {
 						if err := k.confirm(segment{sc: j.scs[i], res: r}, "driver outcome "+r.Settle); err != nil {
 							k.fail(err)
 						}
